@@ -721,6 +721,19 @@ def render_itp(mols, rnd, fault=None):
         if fault == 'itp-index-beyond-atoms' and mi == fault_mol:
             out += ['[ bonds ]', '1 %d 1 0.3 1000' % (len(m['atoms']) + 1)]
             applied = fault
+        if fault in ('itp-index-zero', 'itp-index-negative') and mi == fault_mol:
+            # atom indices are 1-based: 0 and negative numbers name no atom (and must not wrap round to the end of the list)
+            n = len(m['atoms'])
+            bad = '0' if fault == 'itp-index-zero' else '-%d' % (1 + n % 2)
+            variant = (n + len(m['sections'])) % 4
+            sec, ar, par = [('bonds', 2, '1 0.3 1000'), ('angles', 3, '2 120 25'), ('exclusions', 2, ''), ('constraints', 2, '1 0.3')][variant]
+            idx = [str(1 + (k % n)) for k in range(ar)]
+            idx[(n + mi) % ar] = bad
+            body = ['[ %s ]' % sec, (' '.join(idx) + ' ' + par).strip()]
+            if n % 3 == 0:
+                body = [body[0], '#ifdef FLEX', body[1], '#endif']
+            out += body
+            applied = fault
         if fault == 'itp-undefined-atom-name' and mi == fault_mol:
             out += ['[ bonds ]', '%s ZZ9 1 0.3 1000' % m['atoms'][0]['name']]
             applied = fault
@@ -1039,7 +1052,7 @@ def run_case(params):
                 b.nontrivial(text, {'itp_text': text[:2500]})
         elif r < 0.88:
             fault = rnd.choice(['itp-duplicate-atom', 'itp-index-beyond-atoms', 'itp-unknown-section', 'itp-endif-without-if',
-                                'itp-undefined-atom-name'])
+                                'itp-undefined-atom-name', 'itp-index-zero', 'itp-index-zero', 'itp-index-negative'])
             p, mols, text = check_itp(rnd, b, fault=fault)
             if p == 'skip':
                 b.total -= 1
